@@ -34,7 +34,20 @@ def main():
         subprocess.run(['git', '-C', '/repo', 'worktree', 'add', '-q', '--detach', wt, 'HEAD'],
                        check=True)
         r = subprocess.run(['git', '-C', wt, 'apply', patch], capture_output=True, text=True)
-        if r.returncode != 0:
+        if r.returncode != 0 and '--partial' in sys.argv:
+            # (reverts of old fixes) later commits changed some of the same lines: apply the hunks
+            # that still apply, report the rejected files
+            r2 = subprocess.run(['git', '-C', wt, 'apply', '--reject', patch], capture_output=True,
+                                text=True)
+            rej = subprocess.run('find . -name "*.rej"', shell=True, cwd=wt, capture_output=True,
+                                 text=True).stdout.split()
+            changed = subprocess.run(['git', '-C', wt, 'diff', '--stat'], capture_output=True,
+                                     text=True).stdout.strip().splitlines()
+            print('PARTIALLY APPLIED; rejected hunks in:', ' '.join(rej) or '-', '| applied:',
+                  changed[-1] if changed else 'nothing')
+            if not changed:
+                return 3
+        elif r.returncode != 0:
             print('PATCH DOES NOT APPLY:', r.stderr[:500])
             return 3
         env = dict(os.environ, VERIF_REPO=wt, VF_EVIDENCE_DIR=os.path.join(out_dir, 'ev'),
